@@ -1,7 +1,11 @@
 //! Monitors, workload generators and adapters shared by the harness binaries.
+pub mod checks;
+pub mod drive;
 pub mod gen;
+pub mod memio;
 pub mod panicmon;
 pub mod peer;
 pub mod prng;
 pub mod real;
 pub mod report;
+pub mod scn;
